@@ -228,14 +228,23 @@ def native_law(uq, qtyping, law, cfg, model):
                     k = int(badi[0]); return dict(confirmed=True, inputs=dict(inputs, code=int(codes[k])), observed=dict(dequantized=float(dq[k]), expected=float(exact[k]), requantized=int(back[k])))
             xs = np.linspace((lo - z) * s, (qmax - z) * s, 4001).astype(np.float32)
             if model and symnp.model_value(model, 'x') is not None: xs = np.concatenate([xs, [f32(mv('x'))]])
-            xs = xs[(xs >= np.float32((lo - z) * s)) & (xs <= np.float32((qmax - z) * s))]
-            qx = uq.uniform_quantize(xs, p)
-            if law in ('quantize',) and (qx.min() < lo or qx.max() > qmax):
-                return dict(confirmed=True, inputs=inputs, observed=dict(qmin=int(qx.min()), qmax=int(qx.max())))
-            if law == 'monotone':
+            if law in ('quantize', 'monotone'):
+                # any array must quantize into the range, monotonically: include values far outside the representable range
+                ext = np.array([m_ * k_ for k_ in (1.5, 1e3, 1e6, 1e10, 6.5e17, 1.4e18, 1e19, 1e25, 1e30) for m_ in (s, -s)], dtype=np.float64)
+                xs = np.concatenate([xs, ext[np.abs(ext) < 3e38].astype(np.float32)])
+                with np.errstate(all='ignore'): qx = uq.uniform_quantize(xs, p)
+                ref = np.clip(np.rint(xs.astype(np.float64) / np.float64(s) + z), lo, qmax)
+                if qx.min() < lo or qx.max() > qmax:
+                    return dict(confirmed=True, inputs=inputs, observed=dict(qmin=int(qx.min()), qmax=int(qx.max())))
+                d0 = np.nonzero(np.abs(qx.astype(np.float64) - ref) > 1)[0]
+                if len(d0):
+                    k = int(d0[0]); return dict(confirmed=True, inputs=dict(inputs, x=float(xs[k])), observed=dict(quantized=int(qx[k]), reference_clip_rint=float(ref[k])))
                 o = np.argsort(xs, kind='stable'); d = np.diff(qx[o].astype(np.int64))
                 if (d < 0).any():
                     k = int(np.nonzero(d < 0)[0][0]); return dict(confirmed=True, inputs=dict(inputs, x1=float(xs[o][k]), x2=float(xs[o][k + 1])), observed=dict(q1=int(qx[o][k]), q2=int(qx[o][k + 1])))
+                continue
+            xs = xs[(xs >= np.float32((lo - z) * s)) & (xs <= np.float32((qmax - z) * s))]
+            qx = uq.uniform_quantize(xs, p)
             if law == 'roundtrip':
                 back = uq.uniform_dequantize(qx, p); errs = np.abs(back.astype(np.float64) - xs.astype(np.float64))
                 k = int(np.argmax(errs))
@@ -244,6 +253,7 @@ def native_law(uq, qtyping, law, cfg, model):
     return dict(confirmed=False, inputs=dict(model=model), observed='the counter-model did not reproduce natively')
 
 # ------------------------------------------------------------------------------------------------ canaries
+LINKS = ('pre-rounding-value', 'result-is-clip-rint', 'scale-equals-reference', 'zp-equals-reference')
 CANARIES = [
     ('tensor_zp_scale_from_min_max: / qmax -> / (qmax + 1)', 'scale = bound / qmax', 'scale = bound / (qmax + 1)', ['params.b8.sym.scale-equals-reference']),
     ('tensor_zp_scale_from_min_max: drop np.minimum(min, 0)', 'bound_min = np.minimum(min_value, np.zeros_like(min_value))', 'bound_min = min_value', ['params.b8.asym.zp-in-range', 'params.b8.asym.zp-equals-reference']),
@@ -275,6 +285,11 @@ def run(rep):
             if g.law:
                 rp = native_law(uq, qtyping, g.law, g.cfg, model if isinstance(model, dict) else {})
                 ob.replay = rp
+                if not rp.get('confirmed') and any(k_ in g.id for k_ in LINKS):
+                    # a code-to-reference link (a lemma used to carry the laws) no longer holds, but no law of the property fails on
+                    # the real code for any replayed input: the property is undecided by this contract, not violated
+                    ob.status = core.INCONCLUSIVE; ob.detail = f'link lemma refuted ({model}); native law replay found no failing input'
+
             else: ob.replay = dict(confirmed=False, note='structural goal evaluated by executing the real code', model=model)
         k = rep.finding_for(ob.id)
         if k is not None and st != 'proved':
